@@ -1,7 +1,7 @@
 (* C06 entry points of the extracted model, specification, classes and the types.ts reader. *)
 From Coq Require Extraction ExtrOcamlBasic ExtrOcamlString.
 From Coq Require Import List Arith.
-Require Import TT.Model.Str TT.Model.C06Serde TT.Spec.C06SerdeRule TT.Spec.C06Keys.
+Require Import TT.Model.Str TT.Model.C06Serde TT.Spec.C06SerdeRule TT.Spec.C06Keys TT.Model.C06Print.
 
 Definition c06_group_string (g : group) : str := group_string g.
 Definition c06_cgroup_string (g : list cmeta) : str := cgroup_string g.
@@ -15,5 +15,13 @@ Definition c06_classes (dfc : str) (c : container) : list bool :=
   (kf_skip_text c :: kf_skip_beside c :: kf_rename_escape c :: kf_rename_text c :: kf_config_case dfc c :: nil)%list.
 Definition c06_read_keys (n : str) (file : str) : option (list decl_obs) := read_keys n file.
 
+(* deepening round 7: the declaration texts of Model/C06Print.v (compared with the real types.ts on every case) *)
+Definition c06_mk_member (x : str * (bool * (bool * str))) : member :=
+  {| m_name := fst x; m_bare := fst (snd x); m_opt := fst (snd (snd x)); m_value := snd (snd (snd x)) |}.
+Definition c06_interface_text (n : str) (ms : list (str * (bool * (bool * str)))) : str := interface_text n (map c06_mk_member ms).
+Definition c06_zobject_text (n : str) (ms : list (str * (bool * (bool * str)))) : str := zobject_text n (map c06_mk_member ms).
+Definition c06_alias_text (n : str) (names : list str) : str := alias_text n names.
+Definition c06_zenum_text (n : str) (names : list str) : str := zenum_text n names.
+
 Extraction Language OCaml.
-Extraction "tt_c06.ml" c06_group_string c06_cgroup_string c06_model c06_model_raw c06_spec c06_oracle c06_in_domain c06_classes c06_read_keys.
+Extraction "tt_c06.ml" c06_group_string c06_cgroup_string c06_model c06_model_raw c06_spec c06_oracle c06_in_domain c06_classes c06_read_keys c06_interface_text c06_zobject_text c06_alias_text c06_zenum_text.
